@@ -667,6 +667,31 @@ def main(argv=None):
                     run.fail('restating-profile-changes-result', 'a message profile that restates the standard structure '
                              'changes the result', version=v, structure=m, text=text, segment=None, level=2,
                              without='', with_profile='')
+                # ... with group finding off as well: same tree shape, same encoding, same report
+                def shape(el):
+                    return [(ch.classname, ch.name, shape(ch) if ch.classname == 'Group' else None) for ch in el.children]
+                f0 = parse_message(text, validation_level=S.TOLERANT, find_groups=False)
+                f1 = parse_message(text, validation_level=S.TOLERANT, find_groups=False, message_profile={m: std})
+                if shape(f0) != shape(f1) or f0.to_er7() != f1.to_er7() or \
+                        sorted(map(str, f0.validate(return_errors=True).errors)) != \
+                        sorted(map(str, f1.validate(return_errors=True).errors)):
+                    run.fail('restating-profile-changes-result', 'a message profile that restates the standard structure '
+                             'changes the result of parse_message(find_groups=False)', version=v, structure=m, text=text,
+                             segment=None, level=2, without=str(shape(f0))[:300], with_profile=str(shape(f1))[:300])
+                # a minimum cardinality above 1: a child present fewer times than the profile requires is reported
+                r2 = thaw(std)
+                rep_rows = [row for row in r2[1] if row[3] == 'SEG' and row[0] != 'MSH' and names.count(row[0]) == 1
+                            and (row[2][1] == -1 or row[2][1] >= 2)]
+                if rep_rows:
+                    row2 = rng.choice(rep_rows)
+                    row2[2] = [2, row2[2][1]]
+                    dist['min2_profiles'] = dist.get('min2_profiles', 0) + 1
+                    e2 = [str(e) for e in parse_message(text, validation_level=S.TOLERANT, message_profile={m: freeze(r2)}
+                                                        ).validate(return_errors=True).errors]
+                    if not any('Missing required child' in e and row2[0] in e for e in e2):
+                        run.fail('profile-required-not-enforced', 'validate() does not report a segment that occurs once where the '
+                                 'profile requires it twice', version=v, structure=m, child=row2[0], text=text, errors=e2[:5],
+                                 segment=None, edits=['%s min 2' % row2[0]])
             except HL7apyException as ex:
                 run.fail('profiled-parse-raises', 'parsing a conforming message with a one-edit profile raised',
                          version=v, structure=m, text=text, exc=repr(ex))
@@ -894,6 +919,41 @@ def main(argv=None):
                     run.fail('profiled-parse-crashes', 'parsing a conforming message under a profile that retypes a field of a '
                              'top-level segment raised a non-library exception', version=v, structure=m, path=[sname, fname],
                              text=text, exc=repr(ex))
+    # ---- a minimum cardinality of 2 (segment and field level) on ADT_A01 of every version
+    for v in S.VERSIONS:
+        lib = hl7apy.load_library(v)
+        ec = S.default_ec(v)
+        std = lib.MESSAGES['ADT_A01']
+        r2 = thaw(std)
+        segrow = [row for row in r2[1] if row[0] == 'NK1']
+        if not segrow or segrow[0][1] is None:
+            continue
+        segrow[0][2] = [2, -1]
+        frows = [fr for fr in segrow[0][1][1] if fr[2][1] == -1 or fr[2][1] >= 2]
+        if frows:
+            frows[0][2] = [2, frows[0][2][1]]
+        names = [n for n in c01.instance_names(std, 'req') if n not in ('MSH', 'NK1')]
+        lines = [c01.msh_line('ADT_A01', v)] + [c01.canonical_line(rng, lib, ec, n) for n in names]
+        fidx = int(frows[0][0].split('_')[1]) if frows else 1
+        one = 'NK1' + '|' * fidx + 'x'
+        for nk1_lines, want_seg, want_field in (([one], True, bool(frows)), ([one, one], False, bool(frows)),
+                                                 (['NK1' + '|' * fidx + 'x~y'] * 2, False, False)):
+            text = '\r'.join(lines + nk1_lines)
+            dist['min2_profiles'] = dist.get('min2_profiles', 0) + 1
+            try:
+                errs = [str(e) for e in parse_message(text, validation_level=S.TOLERANT, message_profile={'ADT_A01': freeze(r2)}
+                                                      ).validate(return_errors=True).errors]
+            except HL7apyException as ex:
+                run.note('min-2 profile %s skipped: %r' % (v, ex))
+                continue
+            got_seg = any('Missing required child' in e and e.rstrip().endswith('.NK1') for e in errs)
+            got_field = bool(frows) and any('Missing required child' in e and frows[0][0] in e for e in errs)
+            if got_seg != want_seg or got_field != want_field:
+                run.fail('profile-required-not-enforced', 'validate() does not judge a minimum cardinality of 2 set by the profile '
+                         '(occurrences below it are missing, at or above it are not)', version=v, structure='ADT_A01',
+                         child='NK1' if got_seg != want_seg else frows[0][0], text=text, errors=errs[:6], segment='NK1',
+                         edits=['NK1 min 2', '%s min 2' % (frows[0][0] if frows else None)],
+                         expected=[want_seg, want_field], observed=[got_seg, got_field])
     # ---- a profile that constrains ONE of two same-named components (the same datatype at two positions of a segment)
     def twin_fields(seg_ref):
         """(field row a, field row b, component name): two fields of one complex datatype that has a complex component"""
